@@ -319,6 +319,10 @@ def site_bodies(cv=None, cb=None):
         # captured containers whose ONLY mention is as the root of a write path (element / field store, op-assignment through the path); the
         # following read goes through another closure-free route: the value returned is a constant, the write must simply not fail - and, in the
         # variants `..-then-read`, must be visible
+        # op-assignment onto the captured variable itself writes through (the repository's test `self_has_different_meanings` documents it)
+        "opassign-target": [("opassign", cv, "+=", I(1)), ("return", cv)],
+        "opassign-target-only": [("opassign", cv, "*=", I(3)), ("return", I(0))],
+        "opassign-target-in-block": [("if", ("bool", True), [("opassign", cv, "-=", I(1))], None), ("return", cv)],
         "setindex-target-only": [("setindex", V("lc"), I(0), I(9)), ("return", I(0))],
         "opassign-index-target-only": [("opassign", ("index", V("lc"), I(1)), "+=", I(1)), ("return", I(0))],
         "setfield-target-only": [("setfield", V("co"), "v", I(9)), ("return", I(0))],
@@ -448,7 +452,7 @@ class C07(EHistCheck):
             "closures; counter factory with two instances and re-creation; three nesting levels with a closure created by a closure; closures "
             "created in a method, stored in a list and passed as arguments; the shadowing family), de-duplicated on the values of the "
             "template's observer expressions, every transition replayed on the real CLI; (b) capture-site matrix: the captured variable is "
-            "used only inside one of 57 AST node kinds (incl. captured lists, strings, booleans, functions and objects as receiver / operand / callee / root of an element or field write path), with the closure created 1-3 levels below the owner (module, function, method, or "
+            "used only inside one of 60 AST node kinds (incl. captured lists, strings, booleans, functions and objects as receiver / operand / callee / root of an element or field write path), with the closure created 1-3 levels below the owner (module, function, method, or "
             "escaped: returned and called after the owner has returned), the owner assigning the variable after the closure was created; the "
             "same matrix with the site preceded, inside the closure, by a shadowing local / a plain self-assignment / a modify / a block-local "
             "shadow of the captured name (so that inner closures created afterwards must bind the closure's own local); a third family in which "
